@@ -2,6 +2,7 @@ package main
 
 import (
 	"bytes"
+	"encoding/binary"
 	"strings"
 
 	"github.com/gcash/bchd/chaincfg"
@@ -37,6 +38,27 @@ func hdErr(err error) string {
 	return "other"
 }
 
+// childNumOf: the child number of a key, read from its serialisation (bytes 9..13 of the Base58Check payload) - a
+// black-box observation, so that these ops do not depend on a white-box hook
+func childNumOf(k *hdkeychain.ExtendedKey) uint32 {
+	d := base58.Decode(k.String())
+	if len(d) < 13 {
+		return 0
+	}
+	return binary.BigEndian.Uint32(d[9:13])
+}
+
+// privScalarOf: the 32-byte private scalar as serialised in the key's string (bytes 46..78 of the payload); chosen from
+// the serialisation, not from the key's internal buffer, so that the selection of "leading zero" cases does not depend
+// on how the code under test stores the scalar
+func privScalarOf(k *hdkeychain.ExtendedKey) []byte {
+	d := base58.Decode(k.String())
+	if len(d) < 78 {
+		return make([]byte, 32)
+	}
+	return d[46:78]
+}
+
 func hdKeyObs(net *chaincfg.Params, k *hdkeychain.ExtendedKey) string {
 	pub := "err"
 	if p, err := k.Neuter(); err == nil {
@@ -46,7 +68,7 @@ func hdKeyObs(net *chaincfg.Params, k *hdkeychain.ExtendedKey) string {
 	if a, err := k.Address(net); err == nil {
 		addr = hs(a.EncodeAddress())
 	}
-	_, _, _, _, _, _, childNum, _ := hk_hdkeychain_Fields(k)
+	childNum := childNumOf(k)
 	return strings.Join([]string{hs(k.String()), pub, addr, itoa(int(k.Depth())), u64s(uint64(k.ParentFingerprint())), u64s(uint64(childNum)), b2s(k.IsPrivate())}, ",")
 }
 
@@ -103,7 +125,7 @@ func xkeyObs(k *hdkeychain.ExtendedKey, err error) string {
 	if err != nil {
 		return "err:" + hdErr(err)
 	}
-	_, _, _, _, _, _, childNum, _ := hk_hdkeychain_Fields(k)
+	childNum := childNumOf(k)
 	return strings.Join([]string{"ok", hs(k.String()), b2s(k.IsPrivate()), itoa(int(k.Depth())), u64s(uint64(k.ParentFingerprint())), u64s(uint64(childNum)), childStr(k, 0), childStr(k, hdkeychain.HardenedKeyStart)}, ",")
 }
 
@@ -225,7 +247,7 @@ func genC04(r *Rng, tier string, emit func(Case)) {
 			if err != nil {
 				continue
 			}
-			key, _, _, _, _, _, _, _ := hk_hdkeychain_Fields(c)
+			key := privScalarOf(c)
 			if key[0] == 0 {
 				e("hd", "leadingzero", "0", hx(seed), u64s(uint64(idx))+",2147483648")
 				e("hd", "leadingzero", "0", hx(seed), u64s(uint64(idx))+",7,N,3")
@@ -244,7 +266,7 @@ func genC04(r *Rng, tier string, emit func(Case)) {
 				if err != nil {
 					continue
 				}
-				key, _, _, _, _, _, _, _ := hk_hdkeychain_Fields(c)
+				key := privScalarOf(c)
 				if key[0] == 0 && key[1] == 0 {
 					e("hd", "leadingzero2", "0", hx(seed), u64s(uint64(idx))+",2147483648")
 					e("hd", "leadingzero2", "0", hx(seed), u64s(uint64(idx))+",3,N,1")
